@@ -26,7 +26,9 @@ Space: a finite catalogue of small static methods (assembled with gen/dalvik.py,
                        by (a & 7)), nested if and else-if ladders, a division computed before a branch or a loop or
                        tested by an if with an empty body, in-place updates x = x op c (add/sub/rsub and mul/and/or/
                        xor/shl; lit8, lit16, 2addr and 23x with a constant register; int and long; c over {0,+-1,+-2,127,
-                       -128,32767,-32768,MAX,MIN,MIN+1}) loop-carried (while, do-while) and straight-line,
+                       -128,32767,-32768,MAX,MIN,MIN+1}) loop-carried (while, do-while) and straight-line, a parameter
+                       register overwritten in a loop body from another parameter / a temporary / by a swap and read
+                       after the loop (twice) or by the loop condition (int and long),
                        values defined in a loop body and used by the do-while condition / after the loop, packed and
                        sparse switches with default, gaps, shared targets, fall-through, returns, switch in a loop --
                        instantiated over the comparison ops (quick: a diagonal of op tuples; thorough: full op product)
@@ -1359,6 +1361,117 @@ def _inplace_programs(thorough):
     return P
 
 
+def _loop_param_programs(thorough):
+    """A PARAMETER register is overwritten inside a loop body from another variable / parameter and read after the loop
+    (twice: `return p + p`) and / or in the loop condition.  key = C:loop-param-assign.<type>:<shape>"""
+    P = []
+    for ty in ("int", "long"):
+        wide = ty == "long"
+        T = "J" if wide else "I"
+        mv = "move-wide" if wide else "move"
+        rt = ret_ins(T)
+        w = 2 if wide else 1
+        t0, t1, n = 0, w, 2 * w            # two temporaries of the type, an int counter
+        nloc = 2 * w + 1
+
+        def op(name):
+            return "%s-%s" % (name, ty)
+
+        def counter(s, R):
+            if wide:
+                s.ins("long-to-int", n, R.a)
+                s.ins("and-int/lit8", n, n, 7)
+            else:
+                s.ins("and-int/lit8", n, R.a, 7)
+
+        def loop(s, layout, bodyf):
+            Ltop, Lexit = D.Label(), D.Label()
+            if layout == "while":
+                s.label(Ltop)
+                s.ins("if-lez", n, Lexit)
+                bodyf()
+                s.ins("add-int/lit8", n, n, -1)
+                s.ins("goto", Ltop)
+                s.label(Lexit)
+            else:
+                s.ins("add-int/lit8", n, n, 1)
+                s.label(Ltop)
+                bodyf()
+                s.ins("add-int/lit8", n, n, -1)
+                s.ins("if-gtz", n, Ltop)
+
+        shapes = {}
+        # b = b + a in the loop; return b + b
+        shapes["add-other-param"] = lambda s, R: [s.ins(op("add"), R.b, R.b, R.a)]
+        shapes["add-other-param/2addr"] = lambda s, R: [s.ins(op("add") + "/2addr", R.b, R.a)]
+        # t = b * 3 + a ; b = t          (assigned from a temporary by move)
+        shapes["move-from-temp"] = lambda s, R: [s.ins(op("add"), t0, R.b, R.b), s.ins(op("xor"), t0, t0, R.a), s.ins(mv, R.b, t0)]
+        # b = a (copy of the other parameter), a = a + b   (both parameters rewritten)
+        shapes["copy-and-add"] = lambda s, R: [s.ins(mv, t0, R.b), s.ins(mv, R.b, R.a), s.ins(op("add"), R.a, R.a, t0)]
+        # swap through a temporary
+        shapes["swap"] = lambda s, R: [s.ins(mv, t0, R.a), s.ins(mv, R.a, R.b), s.ins(mv, R.b, t0)]
+        # b = b - a ; a = a ^ b
+        shapes["two-params"] = lambda s, R: [s.ins(op("sub"), R.b, R.b, R.a), s.ins(op("xor"), R.a, R.a, R.b)]
+        for shape, bf in shapes.items():
+            for layout in ("while", "dowhile"):
+                for ret in ("b+b", "a-b"):
+                    def body(s, R, bf=bf, layout=layout, ret=ret):
+                        counter(s, R)
+                        loop(s, layout, lambda: bf(s, R))
+                        if ret == "b+b":
+                            s.ins(op("add"), t0, R.b, R.b)
+                        else:
+                            s.ins(op("sub"), t0, R.a, R.b)
+                        s.ins(rt, t0)
+                    P.append(Prog("C:loop-param-assign.%s:%s:%s:%s" % (ty, shape, layout, ret),
+                                  "C:loop-param-assign.%s:%s" % (ty, shape), T + T, T, nloc, body))
+        if not wide:
+            # the parameter itself is the loop counter and is tested by the loop condition
+            def cond_param(s, R, layout):
+                Ltop, Lexit = D.Label(), D.Label()
+                s.ins("and-int/lit8", R.a, R.a, 7)
+                if layout == "while":
+                    s.label(Ltop)
+                    s.ins("if-lez", R.a, Lexit)
+                    s.ins("add-int", R.b, R.b, R.a)
+                    s.ins("add-int/lit8", R.a, R.a, -1)
+                    s.ins("goto", Ltop)
+                    s.label(Lexit)
+                else:
+                    s.label(Ltop)
+                    s.ins("add-int", R.b, R.b, R.a)
+                    s.ins("add-int/lit8", R.a, R.a, -1)
+                    s.ins("if-gtz", R.a, Ltop)
+                s.ins("add-int", 0, R.b, R.b)
+                s.ins("add-int", 0, 0, R.a)
+                s.ins("return", 0)
+            for layout in ("while", "dowhile"):
+                P.append(Prog("C:loop-param-assign.int:param-in-condition:%s" % layout,
+                              "C:loop-param-assign.int:param-in-condition", "II", "I", nloc,
+                              lambda s, R, layout=layout: cond_param(s, R, layout)))
+
+            # while (a != b) { if (a > b) a = a - b' ... }  bounded: a = (a & 7) + 1, b = (b & 7) + 1 ; gcd by subtraction
+            def gcd(s, R):
+                Ltop, Lexit, Lelse = D.Label(), D.Label(), D.Label()
+                s.ins("and-int/lit8", R.a, R.a, 7)
+                s.ins("add-int/lit8", R.a, R.a, 1)
+                s.ins("and-int/lit8", R.b, R.b, 7)
+                s.ins("add-int/lit8", R.b, R.b, 1)
+                s.label(Ltop)
+                s.ins("if-eq", R.a, R.b, Lexit)
+                s.ins("if-le", R.a, R.b, Lelse)
+                s.ins("sub-int/2addr", R.a, R.b)
+                s.ins("goto", Ltop)
+                s.label(Lelse)
+                s.ins("sub-int/2addr", R.b, R.a)
+                s.ins("goto", Ltop)
+                s.label(Lexit)
+                s.ins("add-int", 0, R.a, R.a)
+                s.ins("return", 0)
+            P.append(Prog("C:loop-param-assign.int:gcd", "C:loop-param-assign.int:gcd", "II", "I", nloc, gcd))
+    return P
+
+
 # switches: v0 = r, v1 = key
 SW_KEYS = {"a": None, "and3": ("and-int/lit8", 3), "sub30": ("add-int/lit8", -30), "rem5": ("rem-int/lit8", 5)}
 
@@ -1560,6 +1673,7 @@ def tier_c(thorough):
                 sid = "sc2long.%s.%s" % (t1, "else" if els else "noelse")
                 add("%s:%s" % (sid, ",".join(ops)), sid, sk_sc2long(ops, t1, els), "JJ", "J", 6)
     P.extend(_inplace_programs(thorough))
+    P.extend(_loop_param_programs(thorough))
     # switches
     for pid, sid, args in _switch_catalogue(thorough):
         add("switch." + pid, "switch." + sid, sk_switch(*args))
